@@ -81,12 +81,16 @@ def volatileReq (lines : List (Str × Str)) (k : Str) : Bool :=
   || (decide (k = kAcceptEncoding) && (clientFirst lines k).isNone)
   || (decide (k = kUserAgent) && (match clientFirst lines k with | some v => decide (v = []) | none => true))
 
-def canonReqHeaders (lines : List (Str × Str)) (h : Hdr) : Hdr := h.filter fun e => !volatileReq lines e.1
+/-- net/http's transport writes ONE `User-Agent` line (the first value) -/
+def firstOnly (k : Str) (vs : List Str) : List Str := if k = kUserAgent then vs.take 1 else vs
+
+def canonReqHeaders (lines : List (Str × Str)) (h : Hdr) : Hdr :=
+  (h.filter fun e => !volatileReq lines e.1).map fun e => (e.1, firstOnly e.1 e.2)
 
 def reqHdrOK (lines : List (Str × Str)) (ip : Option Str) (seen : Hdr) : Bool :=
   let h0 := afterAuthentication (parseHeaders lines)
   (h0.keys ++ seen.keys ++ [kXFF, kTe, kUserAgent]).all fun k =>
-    volatileReq lines k || decide (seen.values k = reqHdrExpected h0 ip k)
+    volatileReq lines k || decide (seen.values k = firstOnly k (reqHdrExpected h0 ip k))
 
 def targetOK (check : Str → Str → Bool) (t t' : Str) : Bool := check (cut 63 t).1 (cut 63 t').1
 
@@ -120,20 +124,21 @@ def respHdrExpected (pre up : Hdr) (k : Str) : List Str :=
 def dropClose (k : Str) (vs : List Str) : List Str := if k = kConnection then vs.filter (fun v => decide (v ≠ kClose)) else vs
 
 /-- response header names net/http's server decides on the gateway's own hop -/
-def volatileResp (up : Hdr) (k : Str) : Bool :=
+def volatileResp (status : Nat) (up : Hdr) (k : Str) : Bool :=
   decide (k = kContentLength) || ((decide (k = kDate) || decide (k = kContentType)) && (up.get? k).isNone)
+  || (decide (k = kContentType) && decide (status = 304))      -- net/http's server suppresses Content-Type on 304
 
-def canonRespHeaders (up : Hdr) (h : Hdr) : Hdr :=
-  (h.filter fun e => !volatileResp up e.1).filterMap fun e =>
+def canonRespHeaders (status : Nat) (up : Hdr) (h : Hdr) : Hdr :=
+  (h.filter fun e => !volatileResp status up e.1).filterMap fun e =>
     match dropClose e.1 e.2 with
     | [] => none
     | vs => some (e.1, vs)
 
-def respHdrOK (closeWhenIdle : Bool) (upLines : List (Str × Str)) (client : Hdr) : Bool :=
-  let up := parseHeaders upLines
+def respHdrOK (closeWhenIdle : Bool) (status : Nat) (upLines : List (Str × Str)) (client : Hdr) : Bool :=
+  let up := upstreamResponseHeaders upLines
   let pre := preHeaders closeWhenIdle
   (pre.keys ++ up.keys ++ client.keys).all fun k =>
-    volatileResp up k || decide (dropClose k (client.values k) = dropClose k (respHdrExpected pre up k))
+    volatileResp status up k || decide (dropClose k (client.values k) = dropClose k (respHdrExpected pre up k))
 
 structure RespVerdict where
   status : Bool
@@ -143,7 +148,7 @@ deriving Repr, DecidableEq
 
 def respVerdict (closeWhenIdle : Bool) (upStatus : Nat) (upLines : List (Str × Str)) (upBody : Str) (client : Resp) : RespVerdict :=
   { status := decide (client.status = upStatus), body := decide (client.body = upBody),
-    headers := respHdrOK closeWhenIdle upLines client.headers }
+    headers := respHdrOK closeWhenIdle upStatus upLines client.headers }
 
 /-! ## gateway-terminated answers -/
 /-- what a client (and the upstreams) observed for a request the gateway terminated -/
